@@ -263,6 +263,166 @@ Theorem C15_for_each_emits_exactly_partial :
 Proof. exact for_each_emits_exactly. Qed.
 Print Assumptions C15_for_each_emits_exactly_partial.
 
+(* ================================================================ the recurrence engine, modelled *)
+(* Within the fragment  freq in YEARLY..DAILY, interval, count, until, bymonth, bymonthday, byyearday,
+   byweekday (with ordinals), byhour/byminute/bysecond as times of the day, rule sets of one zone
+   (Schedule.v, [rs_occ]; outside it [rs_occ] answers None)  the hypothesis engine_is_rfc5545 is replaced
+   by an executable Gallina recurrence [rr_occ] / [rs_occ], proved below to be ordered, duplicate-free
+   and exactly the filtered set, and compared with dateutil's output on every generated case of the
+   fragment ([engine_ok] inside the correspondence check).  What remains assumed inside the fragment is
+   only that this per-run comparison (as good as its generators) covers dateutil's behaviour.          *)
+
+(* the calendar conversion is a bijection between ordinals and valid civil dates *)
+Theorem C15_civil_roundtrip :
+  (forall n y m d, civil_from_days n = (y, m, d) ->
+     1 <= m <= 12 /\ 1 <= d <= month_len y m /\ days_from_civil y m d = n) /\
+  (forall y m d, 1 <= m <= 12 -> 1 <= d <= month_len y m ->
+     civil_from_days (days_from_civil y m d) = (y, m, d)).
+Proof.
+  split.
+  - intros n y m d H. destruct (civil_of_days n y m d H) as (A & B & C & _). auto.
+  - exact days_of_civil.
+Qed.
+Print Assumptions C15_civil_roundtrip.
+
+(* every rule the model accepts is well-formed: interval >= 1, times of the day valid and increasing *)
+Theorem C15_rule_wellformed : forall r q, normalize r = Some q -> rule_ok q.
+Proof. exact normalize_ok. Qed.
+Print Assumptions C15_rule_wellformed.
+
+(* the days the interval grid selects: some period k >= 0 of the rule <-> the declarative alignment
+   (yearly: every interval-th year from the start's; monthly: every interval-th month; weekly: every
+   interval-th week counted from the week (starting on wkst) that contains the start; daily) *)
+Theorem C15_interval_grid : forall q n, 1 <= q_interval q ->
+  (aligned q n <-> exists k, 0 <= k /\ plo q k <= n < phi q k).
+Proof. exact aligned_iff. Qed.
+Print Assumptions C15_interval_grid.
+
+(* ONE RULE.  [is_occ q s]: s = day * 86400e6 + t * 1e6 for a day of some period k >= 0 that passes every
+   filter ([day_ok]: each keyword looks only at its own component of the day), a time t of the rule, not
+   before dtstart, not after until.  The model's list is strictly increasing (ordered, no duplicate),
+   contains only occurrences, never more than count, and misses an occurrence only if it comes after
+   the count-th one or - for a rule without count and until - on or after the horizon. *)
+Theorem C15_rrule_exact : forall F H r q l b,
+  normalize r = Some q -> rr_occ F H r = Some (l, b) ->
+  StronglySorted Z.lt l /\
+  (forall s, In s l -> is_occ q s) /\
+  (forall c, q_count q = Some c -> Z.of_nat (List.length l) <= Z.max c 0) /\
+  (forall s, is_occ q s ->
+     In s l \/
+     (exists c, q_count q = Some c /\ Z.of_nat (List.length l) = Z.max c 0 /\ forall x, In x l -> x < s) \/
+     (b = false /\ H * US_DAY <= s)).
+Proof. exact rr_exact. Qed.
+Print Assumptions C15_rrule_exact.
+
+(* `until` enters the recurrence only as the instant it denotes: any other representation of the same
+   instant (another zone) gives the same rule.  (This is why the value coming out of the memo table of
+   parse_datetimespec, whose keys compare equal across zones, is harmless for `until` - and why the
+   correspondence check compares `until` as an instant.) *)
+Theorem C15_until_only_instant : forall F H r u u',
+  d_tz u <> None -> d_tz u' <> None -> inst_us u = inst_us u' ->
+  normalize (with_r_until (Some u') r) = normalize (with_r_until (Some u) r) /\
+  rr_occ F H (with_r_until (Some u') r) = rr_occ F H (with_r_until (Some u) r).
+Proof. intros. split; [apply until_only_instant | apply rr_occ_until_instant]; assumption. Qed.
+Print Assumptions C15_until_only_instant.
+
+(* RULE SETS: "united with include and minus exclude".  A rule set is [combine] applied to its parts
+   (the main rule and nested sets as rrule / exrule, dates as rdate / exdate); the result is ordered and
+   duplicate-free, and a stamp is in it iff an included part yields it (before the horizon unless all
+   included parts are complete) and no excluded part does; the excluded parts are evaluated up to a
+   horizon beyond every result. *)
+Theorem C15_ruleset_unfold : forall F H tz c calls,
+  rs_occ F H tz (RS c calls) = combine H (fun H' w => parts_of F tz H' w calls).
+Proof. exact rs_occ_unfold. Qed.
+Print Assumptions C15_ruleset_unfold.
+
+Theorem C15_ruleset_exact : forall H parts l c,
+  combine H parts = Some (l, c) ->
+  exists incs excs H',
+    parts H true = Some incs /\ parts H' false = Some excs /\ H <= H' /\ c = forallb snd incs /\
+    StronglySorted Z.lt l /\
+    (forall s, In s l <-> ((exists p, In p incs /\ In s (fst p)) /\ (c = true \/ s < H * US_DAY) /\
+                           ~ (exists p, In p excs /\ In s (fst p)))) /\
+    (forall s, In s l -> s < H' * US_DAY).
+Proof. exact combine_spec. Qed.
+Print Assumptions C15_ruleset_exact.
+
+(* what the per-run comparison with dateutil establishes when it passes *)
+Theorem C15_engine_check_sound : forall rs stream fin tz l c,
+  engine_ok rs stream fin = true ->
+  top_tz rs = Some tz -> in_fragment tz rs = true ->
+  rs_occ ENGINE_FUEL (max_day 0 stream) tz rs = Some (l, c) ->
+  stream = map (dt_of_stamp tz) (firstn (List.length stream) l) /\
+  (fin = true -> c = true -> List.length l = List.length stream).
+Proof. exact engine_ok_sound. Qed.
+Print Assumptions C15_engine_check_sound.
+
+(* The property inside the fragment, without the engine hypothesis: when the run's comparison passed,
+   the n rows of a template are the first n values of the model's recurrence set (C15_ruleset_exact /
+   C15_rrule_exact say which), projected by the precision. *)
+Theorem C15_rows_are_model_recurrence : forall via memo P now kw n stream rs vs tz l c,
+  run via memo P now kw (MCount n) stream = Ok (rs, vs) ->
+  engine_ok rs stream false = true ->
+  top_tz rs = Some tz -> in_fragment tz rs = true ->
+  rs_occ ENGINE_FUEL (max_day 0 stream) tz rs = Some (l, c) ->
+  exists p, vs = map (emit_next p) (map (dt_of_stamp tz) (firstn n l)) /\ List.length vs = n.
+Proof. exact rows_are_model_recurrence. Qed.
+Print Assumptions C15_rows_are_model_recurrence.
+
+(* ---------------------------------------------------------------- engine model: non-vacuity *)
+
+Definition mk_rr (freq : Z) (start : dt) (iv : Z) (count : scalar) (until : option dt)
+           (bymonth bymonthday : option (list Z)) (byweekday : option (list wday)) : rrule_args :=
+  mkRR freq start (SInt iv) (Some SU) count until None bymonth bymonthday None None None byweekday
+       None None None (SBool false).
+
+(* 2024-02-29 is ordinal 738945 (a Thursday); 2024-03-01 is 738946 *)
+Example C15_ex_calendar :
+  civil_from_days 738945 = (2024, 2, 29) /\ days_from_civil 2024 3 1 = 738946 /\ weekday 738945 = 3 /\
+  civil_from_days 1 = (1, 1, 1) /\ civil_from_days 730120 = (2000, 1, 1) /\ is_leap 1900 = false.
+Proof. vm_compute. repeat split; reflexivity. Qed.
+
+(* monthly on the last Friday, 3 times, from 2024-02-29 10:00 +05:30: Mar 29, Apr 26, May 31 *)
+Example C15_ex_last_friday :
+  option_map (fun p => (map (dt_of_stamp 19800) (fst p), snd p))
+             (rr_occ 100 0 (mk_rr 1 (mkDT 738945 36000000000 (Some 19800)) 1 (SInt 3) None None None
+                                  (Some [WD 4 (Some (-1))])))
+  = Some ([mkDT 738974 36000000000 (Some 19800); mkDT 739002 36000000000 (Some 19800);
+           mkDT 739037 36000000000 (Some 19800)], true).
+Proof. vm_compute. reflexivity. Qed.
+
+(* monthly on the 31st skips the short months; every second one; until in another zone *)
+Example C15_ex_monthly_31 :
+  option_map (fun p => map (fun s => s / US_DAY) (fst p))
+             (rr_occ 100 0 (mk_rr 1 (mkDT 738916 0 (Some 0)) 2 SNone (Some (mkDT 739099 0 (Some 3600))) None None None))
+  = Some [738916; 738976; 739037; 739098].     (* 2024-01-31, 03-31, 05-31, 07-31 *)
+Proof. vm_compute. reflexivity. Qed.
+
+(* the seeded defect of round 3, in the model: the same instant written in two zones is NOT the same
+   schedule - monthly from 2024-02-29 20:00 -08:00 and from 2024-03-01 04:00 UTC start at one instant
+   and then part; a start must therefore never be replaced by an equal-as-instant value *)
+Example C15_ex_start_zone_matters :
+  let a := mkDT 738945 72000000000 (Some (-28800)) in
+  let b := mkDT 738946 14400000000 (Some 0) in
+  inst_us a = inst_us b /\
+  option_map (fun p => map (fun s => s + 28800 * 1000000) (fst p)) (rr_occ 100 0 (mk_rr 1 a 1 (SInt 3) None None None None))
+  <> option_map (fun p => fst p) (rr_occ 100 0 (mk_rr 1 b 1 (SInt 3) None None None None)).
+Proof. split; [vm_compute; reflexivity | vm_compute; discriminate]. Qed.
+
+(* a rule set: daily x 5 from 2024-02-28, minus the leap day, plus 2024-03-10 *)
+Example C15_ex_ruleset :
+  option_map (fun p => (map (fun s => s / US_DAY) (fst p), snd p))
+    (rs_occ 100 0 0 (RS (SBool false)
+       [CRule MRRule (mk_rr 3 (mkDT 738944 0 (Some 0)) 1 (SInt 5) None None None None);
+        CDate MExDate (mkDT 738945 0 (Some 0)); CDate MRDate (mkDT 738955 0 (Some 0))]))
+  = Some ([738944; 738946; 738947; 738948; 738955], true).
+Proof. vm_compute. reflexivity. Qed.
+
+Example C15_ex_outside_fragment :
+  rr_occ 100 0 (mk_rr 4 (mkDT 738945 0 (Some 0)) 1 (SInt 3) None None None None) = None /\
+  rr_occ 100 0 (mk_rr 3 (mkDT 738945 0 None) 1 (SInt 3) None None None None) = None.
+Proof. vm_compute. split; reflexivity. Qed.
+
 (* ---------------------------------------------------------------- repaired defects: regression examples *)
 
 Definition no_parser : parser := fun _ => Err BadOracle.
